@@ -34,7 +34,7 @@ var libOverlay = func(files ...string) map[string][]string {
 
 func init() {
 	properties["C01"] = &PropertySpec{ID: "C01",
-		Rule:        "shapes: every atom kind alone, every combinator over literal atoms, global-pattern programs (list in harness/C01/c01.go), plus the generated family F2 = 10 quantifier forms x 10 quantifier forms x 9 structural positions (nested, sequence-in-loop, alternation-in-loop, adjacent loops, capture+back-reference under loops, inline subroutine called twice, global pattern referenced twice, subroutine / global pattern called inside every loop form) = 900 programs; code-shape lead for every program of all families plus 17 programs with counted loops of 2..4 copies around calls, alternations and lists: when the generated code does not have the expected jump-target shape (calls target the StartSubroutine of their name, loop starts/stops pair up, branch/jump/not-in targets in range) the program is compared with the reference semantics on all ASCII texts of length 0..6 (thorough 8) and a violation is reported only with a distinguishing input, otherwise the run is inconclusive; text: all ASCII strings of length 0..T (quick T=3, thorough T=5); literal bytes symbolic (printable ASCII) in the symbolic-literal group",
+		Rule:        "shapes: every atom kind alone, every combinator over literal atoms, global-pattern programs (list in harness/C01/c01.go), plus the generated family F2 = 10 quantifier forms x 10 quantifier forms x 9 structural positions (nested, sequence-in-loop, alternation-in-loop, adjacent loops, capture+back-reference under loops, inline subroutine called twice, global pattern referenced twice, subroutine / global pattern called inside every loop form) = 900 programs; code-shape lead for every program of all families plus 17 programs with counted loops of 2..4 copies around calls, alternations and lists: when the generated code does not have the expected jump-target shape (calls target the StartSubroutine of their name, loop starts/stops pair up, branch/jump/not-in targets in range) the program is compared with the reference semantics on all ASCII texts of length 0..6 (thorough 8) and a violation is reported only with a distinguishing input, otherwise the run is inconclusive; text: all ASCII strings of length 0..T (quick T=3, thorough T=5); literal bytes symbolic (printable ASCII) in the symbolic-literal group; long inputs: 12 programs with a closed-form answer on texts u^k t (k saved backtracking states, loop iterations, nested calls, captured bytes), k symbolic in [30,34], [62,66], [126,130] (thorough also [14,18], [254,258], [510,514])",
 		Assumptions: []string{"ASCII text", "loop ids returned by math/rand.Int63 are pairwise distinct", "programs on which the property statement is silent (empty literals, empty/unbound back-references, named loops, whole file/line/word) are assumed away"},
 		Groups: []JobGroup{
 			{Name: "c01-concrete-literals", Overlay: libOverlay("C01/c01.go"), Pkg: "libvore", Entry: "VerifC01",
@@ -60,6 +60,21 @@ func init() {
 			{Name: "c01-wellformed", Overlay: libOverlay("C01/c01.go", "C01/wellformed.go"), Pkg: "libvore", Entry: "VerifC01WellFormed", PanicOK: true, MaxFailures: 2,
 				Args: func(tier string, l *Loaded) [][]int64 {
 					return seqArgs(countOf(l, "libvore", "VerifC01WellFormedCount"), tOf(tier, 6, 8))
+				}},
+			{Name: "c01-long", Overlay: libOverlay("C01/c01.go", "C01/c01_long.go"), Pkg: "libvore", Entry: "VerifC01Long", PanicOK: true, MaxFailures: 3, Budget: 400_000_000,
+				Args: func(tier string, l *Loaded) [][]int64 {
+					var out [][]int64
+					n := countOf(l, "libvore", "VerifC01LongCount")
+					bases := []int64{30, 62, 126}
+					if tier == "thorough" {
+						bases = []int64{14, 30, 62, 126, 254, 510}
+					}
+					for c := 0; c < n; c++ {
+						for _, b := range bases {
+							out = append(out, []int64{int64(c), b, 5})
+						}
+					}
+					return out
 				}},
 			{Name: "c01-twin", Overlay: libOverlay("C01/c01.go"), Pkg: "libvore", Entry: "VerifC01", Twin: true,
 				Args: func(tier string, l *Loaded) [][]int64 { return [][]int64{{0, 2, 0, 1}} }},
@@ -332,7 +347,7 @@ func init() {
 				}},
 		}}
 	properties["C16"] = &PropertySpec{ID: "C16",
-		Rule:        "real lexer on quote + n arbitrary bytes in 0x01..0x7f + quote for n = 0..4 (thorough 5), both quote styles (symbolic), and on \\x + n bytes for n = 0..3 (thorough 4); API level: Compile(find all <literal>) with body of 1..3 (thorough 4) arbitrary bytes run on a symbolic text of the spelled length (matches iff text == spelled bytes); expected bytes from refUnescape (documented escapes; \\xHH claimed for HH < 0x80)",
+		Rule:        "real lexer on quote + n arbitrary bytes in 0x01..0x7f + quote for n = 0..4 (thorough 5), both quote styles (symbolic), and on \\x + n bytes for n = 0..3 (thorough 4); API level: Compile(find all <literal>) with body of 1..3 (thorough 4) arbitrary bytes run on a symbolic text of the spelled length (matches iff text == spelled bytes); expected bytes from refUnescape (documented escapes; \\xHH claimed for HH < 0x80); literals longer than the lexer's read buffer: k letters + 3 arbitrary bytes + a letter with k in [4090,4095] (thorough [4088,4097], [8184,8193], [2040,2049]), so that every 3-byte spelling straddles the buffer boundary",
 		Assumptions: []string{"ASCII literal text (0x01..0x7f)", "\\xHH with HH >= 0x80 or HH = 00 is outside the claim"},
 		Groups: []JobGroup{
 			{Name: "c16-lex", Overlay: astOv("C16/unescape.go", "C16/c16_lex.go"), Pkg: "ast", Entry: "VerifC16Lex",
@@ -358,6 +373,13 @@ func init() {
 						out = append(out, []int64{4, 0})
 					}
 					return out
+				}},
+			{Name: "c16-lex-long", Overlay: astOv("C16/unescape.go", "C16/c16_lex.go"), Pkg: "ast", Entry: "VerifC16LexLong", MaxFailures: 3,
+				Args: func(tier string, l *Loaded) [][]int64 {
+					if tier == "thorough" {
+						return [][]int64{{4088, 10}, {8184, 10}, {2040, 10}}
+					}
+					return [][]int64{{4090, 6}}
 				}},
 			{Name: "c16-twin", Overlay: astOv("C16/unescape.go", "C16/c16_lex.go"), Pkg: "ast", Entry: "VerifC16Lex", Twin: true,
 				Args: func(tier string, l *Loaded) [][]int64 { return [][]int64{{1, 1}} }},
